@@ -40,7 +40,7 @@ def rand_invocation(rng, bindir):
     d, d2 = D.ymd(), D2.ymd()
     dt, dt2 = d + "T" + hms(s), d2 + "T" + hms(s2)
     lines = ("\n".join(rng.choice([d, dt2, "x " + d2 + " y", dt, "nothing here"]) for _ in range(6)) + "\n").encode()
-    k = rng.randrange(35)
+    k = rng.randrange(38)
     if k == 0:
         return [T("dconv"), dt, "-f", "%A %d %B %Y %H:%M:%S %j %V %u %a %b"], b"", "dconv-f"
     if k == 1:
@@ -121,7 +121,15 @@ def rand_invocation(rng, bindir):
         return [T("dconv"), "--base", base, "--zone", z, hms(s)], b"", "base-time-zone"
     if k == 33:
         return [T("dconv"), "--base", base, "--from-zone", z, "--zone", "Asia/Kolkata", hms(s)], b"", "base-time-fromzone"
-    return [T("dadd"), "--base", base, "--zone", z, hms(s), "+90m"], b"", "base-time-zone-dadd"
+    if k == 34:
+        return [T("dadd"), "--base", base, "--zone", z, hms(s), "+90m"], b"", "base-time-zone-dadd"
+    # a time of day with the hour (and minute) left open: those come from --base, not from the clock
+    ms = "%02d:%02d" % (s // 60 % 60, s % 60)
+    if k == 35:
+        return [T("dconv"), "--base", base] + rng.choice([["-i", "%M:%S", ms], ["-i", "%S", ms[3:]], ["-i", "%M", ms[:2]]]), b"", "base-partial-time"
+    if k == 36:
+        return [T("dadd"), "--base", base, "-i", "%M:%S", ms, rng.choice(["+1h", "-90m", "+1d"])], b"", "base-partial-time-dadd"
+    return [T("dconv"), "--base", base, "-i", "%M:%S", "-f", "%T"], ("%s\nat %s\n" % (ms, ms)).encode(), "base-partial-time-stdin"
 
 
 def config_task(task):
@@ -332,7 +340,7 @@ def main(tier, seed):
         tasks.append(("loc", (bindir, seed * 49979687 + i, pairs[i:i + step], 5 if quick else 1)))
     for sh in core.pmap(_dispatch, tasks):
         ctx.merge(sh)
-    ctx.rule = ("'config' events = one invocation (18 fully specified templates over all tools, 17 templates with underspecified input (open date fields, 2-digit years, times of day moved between DST zones) "
+    ctx.rule = ("'config' events = one invocation (18 fully specified templates over all tools, 20 templates with underspecified input (open date fields, 2-digit years, times of day moved between DST zones, times with the hour left open) "
                 "plus --base in dconv, dadd, dround, dseq, dgrep, dtest, ddiff, dsort) run under the baseline (TZ=UTC, LC_ALL=C, fixed clock) and under random settings of TZ (15 values incl. "
                 "POSIX strings, missing files), LANG/LC_ALL/LC_TIME/LANGUAGE (12 values), and the clock injected at gettimeofday()/"
                 "time() (20 instants: epoch, leap days, year ends, 2038, 2100, 3000, 4000 + random, and the real clock); stdout and "
